@@ -12,11 +12,13 @@ Local Open Scope string_scope.
 (* the string literal passed to the package's one regexp.MustCompile call (func Start) *)
 Definition addr_pattern_v1 : string := "^(\d+).(\d+).(\d+).(\d+):\d+$".
 
-(* the if around the pattern's use, the if inside it, the loop that is its body *)
+(* the if around the pattern's use, the if inside it, the loop that is its body:
+   translated into Gallina (Gen/PureFnIP.v) and proved there (Properties/C06P.v), hence
+   named, not quoted *)
 Definition addr_guards_v1 : list string := [
-  "valid && AcceptRemoteIP > 1";
-  "len(previousIP) == 5 && len(currentIP) == 5 && AcceptRemoteIP <= 4";
-  "for i := 1; i < AcceptRemoteIP; i++ { if previousIP[i] != currentIP[i] { valid = false; break } }"].
+  "<translated: gen_ip_ok (Gen/PureFnIP.v)>";
+  "<translated: gen_ip_ok (Gen/PureFnIP.v)>";
+  "<translated: gen_ip_loop (Gen/PureFnIP.v)>"].
 
 (* every statement mentioning the compiled pattern or package regexp; where the matched variables come from *)
 Definition addr_uses_v1 : list string := [
